@@ -60,7 +60,7 @@ def fill(P):
       "The axiom is evaluated from the input profile only, for every coalition, on small-scope exhaustive profiles.", "Lemma L07 over the C02/C03 contracts is not finished: no proof part.", "DESIGN.md 4-C07")
     P("C08", "exploration", "bounded relational execution (renaming / reordering / splitting / candidate order / PYTHONHASHSEED subprocesses)",
       "Relational check over representation variants and hash seeds on small-scope exhaustive profiles.", "", "DESIGN.md 4-C08")
-    P("C09", "other", "contract-based deductive verification of the round getters (get_elected/get_eliminated/get_remaining/get_ranking/get_profile) and per-rule frame obligations + bounded query-history check on finished elections of every rule",
+    P("C09", "other", "contract-based deductive verification of the round getters (get_elected/get_eliminated/get_remaining/get_ranking/get_profile/get_step) and per-rule frame obligations + bounded query-history check on finished elections of every rule",
       "Getter results equal the concatenation specs over the recorded rounds, IndexError iff out of range, no store to self; every rule's _run_step stores nothing unless store_states (effect scan; PluralityVeto refuted = known finding) and, for the rules with a full _run_step contract, modifies no field but election_states (frame obligations on every exit path); 12-query histories bounded.",
       "Election._run_step as a function of (profile, state) is assumed for the replay getter; get_status_df (pandas) bounded only.", "DESIGN.md 4-C09")
     P("C10", "other", "contract-based deductive verification of the tie-straddle kernel (elect_cands_from_set_ranking records a tiebreak iff a set straddles the last seat), tiebreak_set (strict order of exactly the tied set, random fallback whenever the tally leaves any tie) and the single-shot / STV rounds + bounded multi-seed audit of recorded tiebreaks",
@@ -70,7 +70,7 @@ def fill(P):
     P("C14", "other", "contract-based deductive verification of BallotGenerator.ballot_pool_to_profile (the generators' common last step: dict keyed by ranking tuples) + bounded structural audit of every generator on a parameter grid",
       "ballot_pool_to_profile is proved for all pools: total weight = number of sampled ballots, given candidate list, untied rankings in tuple order; the samplers themselves (numpy / apportionment) are audited structurally on a parameter grid (bounded).",
       "apportionment package assumed to be Huntington-Hill (A-APP).", "DESIGN.md 4-C14, 8.2")
-    P("C15", "other", "contract-based deductive verification of PreferenceInterval (__init__, _normalize, _remove_zero_support_cands; floats read as reals with one rounding per operation) + bounded entry-by-entry comparison of the probability tables with the defining formulas in exact rationals",
+    P("C15", "other", "contract-based deductive verification of PreferenceInterval (__init__, _normalize, _remove_zero_support_cands; floats read as reals with one rounding per operation) and name_BradleyTerry._make_pow (the unnormalised Bradley-Terry weight as a product of powers) + bounded entry-by-entry comparison of the probability tables with the defining formulas in exact rationals",
       "The interval construction is proved for all support dicts: candidates = given names, zero_cands = support 0, stored interval = positive supports divided by their sum, ZeroDivisionError iff none is positive; "
       "combine_preference_intervals and the Bradley-Terry tables (itertools / numpy) are bounded only.", "floats compared up to 1e-9 relative in the bounded part; A-FLOAT in the proof part.", "DESIGN.md 4-C15, 8.2")
     P("C16", "exploration", "bounded call-site audit of the RNG draws, exact Metropolis acceptance probes, scripted cohesion sampler, spatial rankings recomputed",
